@@ -90,7 +90,7 @@ def check(prop, tier, seed):
         for u in units:
             if hasattr(u, 'configure'):
                 u.configure(tier)
-            names = [f.name for f in u.fns if f.harness and (prop in f.props)]
+            names = [f.name for f in u.fns if f.harness and (prop in f.props or u.name in spec.get('all', []))]
             if tier == 'thorough':
                 pass
             todo.append((u, names))
@@ -121,16 +121,26 @@ def check(prop, tier, seed):
     for (un, fn), r in sorted(jobs.items()):
         if r.status == 'undecided':
             undecided.append('%s/%s: %s' % (un, fn, r.reason))
+        owned = getattr(P, 'OWNED', {})
+        def counts(o):
+            for rx, owners in owned.items():
+                if re.search(rx, o['id']) and prop not in owners:
+                    return False
+            return True
         for o in r.obligations:
-            o = dict(o, unit=un, fn=fn)
-            all_obl.append(o)
+            if counts(o):
+                all_obl.append(dict(o, unit=un, fn=fn))
         for o in r.failed():
+            if not counts(o):
+                continue
             covered = None
             for k in known:
                 if re.search(k['obligation'], o['id']) and known_state[k['id']][0]:
                     covered = k
             if covered:
-                o['known'] = covered['id']
+                for x in all_obl:
+                    if x['id'] == o['id'] and x.get('unit') == un and x.get('fn') == fn:
+                        x['known'] = covered['id']
                 continue
             f = [x for u in units if u.name == un for x in u.fns if x.name == fn][0]
             nres = native.replay(un, f, o, src)
@@ -172,7 +182,7 @@ def write_evidence(prop, tier, seed, t0, all_obl, jobs, units, known_lines, unde
     for (un, fn), r in sorted((jobs or {}).items()):
         f = [x for u in units if u.name == un for x in u.fns if x.name == fn][0]
         fns.append(dict(unit=un, function=fn, source_line=r.info.get('line'), body_sha=r.info.get('sha'), backend=r.backend,
-                        solver_s=round(r.solver_s, 2), obligations=len(r.obligations),
+                        solver_s=round(r.solver_s, 2), result_reused_from_identical_text=bool(getattr(r, 'cached', False)), obligations=len(r.obligations),
                         discharged=sum(1 for o in r.obligations if o['status'] == 'SUCCESS'), status=r.status,
                         replaced_by_contract=f.replace, loop_contracts=len(f.loops), reach_check=r.cover_ok,
                         bounded_unwind=f.unwind, rules_fired=[list(x) for x in r.info.get('rules', []) if x[1]]))
